@@ -156,7 +156,7 @@ def run(out):
                 items.append((tid, s, m))
         traces = common.pool_map(_chunk, items, chunk=4000)
         slim = [{k: t[k] for k in ('tid', 'len', 'kind', 'pos', 'toks')} for t in traces]
-        verdicts, r2 = common.validate_traces('Trace_Tiling', slim, heap='12g')
+        verdicts, r2 = common.validate_traces('Trace_Tiling', slim, heap='5g', batch_events=40000, parallel=4)
         out.add_tlc(name + '-trace-validation', r2, traces=len(traces), tokens=sum(len(t['toks']) for t in traces),
                     errors=sum(1 for t in traces if t['kind'] == 'error'))
         out.traces += len(traces)
